@@ -195,3 +195,9 @@ add("C35", "interpolator truncates instead of floor", OPS + "linear_interpolatio
 add("C35", "interpolator weight without abs complement", OPS + "linear_interpolation.py", "np.abs(1 - mg[:, i].reshape(-1, 1) - excess)", "np.abs(mg[:, i].reshape(-1, 1) - excess)", "R35.4")
 add("C35", "interpolator adjoint uses matvec", OPS + "linear_interpolation.py", "res = self._sop.rmatvec(x).reshape(self.domain.shape)", "res = self._sop.matvec(x).reshape(self.domain.shape)", "R35.4")
 VARIANTS = V
+
+add("C24", "temporary state file opened exclusively", "nifty/re/optimize_kl.py", '            with open(tmp_fn, "wb") as f:', '            with open(tmp_fn, "xb") as f:', "R24.1")
+add("C24", "sampler cached on the instance", "nifty/re/optimize_kl.py", "        sampler = Partial(self.draw_linear_residual, **kwargs)\n",
+    "        sampler = Partial(self.draw_linear_residual, **kwargs)\n        self._last_sampler = sampler\n", "R24.4")
+add("C01", "sandwich scaling shortcut squares a complex factor", OPS + "sandwich_operator.py", "fct = abs(bun._factor)**2", "fct = bun._factor**2", "R01.4")
+VARIANTS = V
